@@ -154,6 +154,26 @@ fn decode_response(data: &[u8]) -> u8 {
     }
 }
 
+const REQ_POSTCARD_ERR: u8 = 10;
+const REQ_DECODED: u8 = 11;
+
+/// The decoding step in front of `SyncResponder::receive`: the request enum carried by
+/// `SyncType::Poll { request }` (SyncIncoming::decode = one more enum tag around it + a move into
+/// PollIncoming; running SyncIncoming::decode itself on symbolic bytes did not finish in 900 s
+/// even for 4 input lengths). What `receive` does with the decoded request is decided for ALL
+/// request values by c18_responder_dispatch_structured.
+fn decode_request(data: &[u8]) -> u8 {
+    match postcard::take_from_bytes::<SyncRequestMessage>(data) {
+        Ok((message, remaining)) => {
+            assert!(inside(remaining, data));
+            let _ = message.session_id();
+            core::mem::forget(message);
+            REQ_DECODED
+        }
+        Err(_) => REQ_POSTCARD_ERR,
+    }
+}
+
 // HOW THE BYTES ARE MADE SYMBOLIC (measured, see checks/C18.json "outside_claim"):
 // a buffer with symbolic bytes AND symbolic length through the serde/postcard decoder does not
 // finish: every `pop()` may hit the end of input, CBMC merges the "end of input" and "byte read"
@@ -203,6 +223,16 @@ raw_harness!(c18_receive_raw_end_session, 21, [3], decode_response,
 raw_harness!(c18_receive_raw_sync_end, 24, [1], decode_response,
     [RESP_POSTCARD_ERR, RESP_DECODED_CONTROL],
     [3 4 13 24]);
+
+raw_harness!(c18_request_raw_end_session, 21, [3], decode_request,
+    [REQ_POSTCARD_ERR, REQ_DECODED],
+    [1 2 3 11 19 20 21]);
+raw_harness!(c18_request_raw_sync_resume, 24, [2], decode_request,
+    [REQ_POSTCARD_ERR, REQ_DECODED],
+    [3 4 13 24]);
+raw_harness!(c18_request_raw_request_missing, 24, [1], decode_request,
+    [REQ_POSTCARD_ERR, REQ_DECODED],
+    [2 3 4 24]);
 
 #[kani::proof]
 #[kani::unwind(8)]
